@@ -460,7 +460,7 @@ def check_dump_case(ctx, cool, opt, code, text, mval, lib=None):
         return
     body = lines
     if opt["header"]:
-        if lines[:1] == [exp_cols] and len(lines) == len(exp_rows) + 1:
+        if lines[:1] == [exp_cols] and (exp_cols not in exp_rows or len(lines) == len(exp_rows) + 1):
             body = lines[1:]
         elif lines == [] and exp_rows == [] and zero_chunks(cool, opt):
             # the header is only written inside the chunk loop: engine yields zero chunks -> no header (finding D18)
